@@ -226,7 +226,113 @@ type c45Image struct {
 type c45Run struct {
 	Ops    []c45Op
 	Images []c45Image
+	Second []c45Second
 	Err    string
+}
+
+// c45Second: after a crash image was recovered (read by a restarted client), one COMPLETE save
+// of a third configuration on top of that image directory, with its own crash images.
+type c45Second struct {
+	After   string `json:"first_save_crash_point"`
+	Third   string `json:"third_configuration"`
+	Images  int    `json:"images"`
+	Ops     string `json:"operations"`
+	Verdict string `json:"verdict"` // "" = fine
+}
+
+// third configurations: one shorter and one longer than anything an interrupted save can have
+// left behind
+func c45Thirds() map[string]c45Cfg {
+	return map[string]c45Cfg{
+		"shorter": {Version: 2, Apex: c45Apex, PrivKey: c45Key, Tunnels: []client.Tunnel{c45T1}},
+		"longer":  c45Identity(c45CertB, c45T1h, c45T2h, c45T3h, client.Tunnel{Target: "http://127.0.0.1:8080", Hostname: "h4uvwxyzabcd", ProxyHeaderHost: "legacy.example.org"}),
+	}
+}
+
+// c45SecondSave copies the crash image imgDir, saves `third` on top of it with the real writer
+// and takes crash images of THAT save; every one of them must read as the recovered or the
+// third configuration, and the completed save as exactly the third.
+func c45SecondSave(root, imgDir string, recovered *c45Cfg, third c45Cfg, splits bool) (sec c45Second, err error) {
+	live, img := filepath.Join(root, "l2live"), filepath.Join(root, "l2img")
+	os.RemoveAll(live)
+	if err = c45CopyDir(imgDir, live); err != nil {
+		return
+	}
+	path := filepath.Join(live, c45File)
+	saveOp, saveWr := vos.BeforeOp, vos.BeforeWrite
+	defer func() { vos.BeforeOp, vos.BeforeWrite = saveOp, saveWr }()
+	var ops []string
+	check := func(point string, mutate func(dir string) error) {
+		os.RemoveAll(img)
+		if e := c45CopyDir(live, img); e != nil {
+			err = e
+			return
+		}
+		if mutate != nil {
+			if e := mutate(img); e != nil {
+				err = e
+				return
+			}
+		}
+		sec.Images++
+		if v := c45Classify(img, recovered, third); strings.HasPrefix(v, "lost:") && sec.Verdict == "" {
+			sec.Verdict = fmt.Sprintf("a crash of the second save %s: %s", point, v)
+		}
+	}
+	busy := false
+	vos.BeforeOp = func(op, opPath string) {
+		if busy {
+			return
+		}
+		busy = true
+		defer func() { busy = false }()
+		k := len(ops)
+		ops = append(ops, op)
+		if k == 0 {
+			check("before op 0 ("+op+")", nil)
+		} else {
+			check(fmt.Sprintf("after op %d (%s)", k-1, ops[k-1]), nil)
+		}
+	}
+	vos.BeforeWrite = nil
+	if splits {
+		vos.BeforeWrite = func(wpath string, off int64, data []byte) {
+			if busy {
+				return
+			}
+			busy = true
+			defer func() { busy = false }()
+			rel, e := filepath.Rel(live, wpath)
+			if e != nil || strings.HasPrefix(rel, "..") {
+				return
+			}
+			for _, n := range c45Splits(len(data), false) {
+				check(fmt.Sprintf("inside op %d (%s), %d of %d bytes", len(ops)-1, ops[len(ops)-1], n, len(data)), func(dir string) error {
+					f, e := os.OpenFile(filepath.Join(dir, rel), os.O_WRONLY, 0)
+					if e != nil {
+						return e
+					}
+					defer f.Close()
+					_, e = f.WriteAt(data[:n], off)
+					return e
+				})
+			}
+		}
+	}
+	e := client.VerifConfigAt(path, third.config()).VerifWriteFile()
+	vos.BeforeOp, vos.BeforeWrite = nil, nil
+	sec.Ops = strings.Join(ops, " ")
+	if e != nil {
+		if sec.Verdict == "" {
+			sec.Verdict = "the second save failed: " + e.Error()
+		}
+		return
+	}
+	sec.Images++
+	if v := c45Classify(live, nil, third); v != "new" && sec.Verdict == "" {
+		sec.Verdict = "after the second save completed the file is not the saved configuration: " + v
+	}
+	return
 }
 
 func c45Scratch() string { return fmt.Sprintf("/dev/shm/verif-c45-%d", os.Getpid()) }
@@ -306,7 +412,29 @@ func c45RunPair(p c45Pair, everyByte bool) (run c45Run) {
 			}
 		}
 		nimg++
-		run.Images = append(run.Images, c45Image{Point: point, OpIndex: op, Kind: kind, Partial: partial, Verdict: c45Classify(img, prev, p.New)})
+		verdict := c45Classify(img, prev, p.New)
+		run.Images = append(run.Images, c45Image{Point: point, OpIndex: op, Kind: kind, Partial: partial, Verdict: verdict})
+		// a restarted client recovered `prev` or `new` from this image; now it saves again
+		var recovered *c45Cfg
+		switch verdict {
+		case "new":
+			n := p.New
+			recovered = &n
+		case "prev":
+			recovered = prev
+		default:
+			return // already a violation of the first save
+		}
+		thirds := c45Thirds()
+		for _, name := range []string{"shorter", "longer"} {
+			sec, err := c45SecondSave(root, img, recovered, thirds[name], everyByte)
+			if err != nil {
+				run.Err = "second save: " + err.Error()
+				return
+			}
+			sec.After, sec.Third = point, name
+			run.Second = append(run.Second, sec)
+		}
 	}
 
 	inHook := false
@@ -399,8 +527,32 @@ func c45Judge(c *report.Check, p c45Pair, run c45Run) (bad int) {
 			}
 		}
 	}
+	for _, third := range []string{"shorter", "longer"} {
+		nbad, total := 0, 0
+		var firstSec *c45Second
+		for i := range run.Second {
+			sec := &run.Second[i]
+			if sec.Third != third {
+				continue
+			}
+			total++
+			if sec.Verdict != "" {
+				nbad++
+				if firstSec == nil {
+					firstSec = sec
+				}
+			}
+		}
+		if firstSec != nil {
+			bad += nbad
+			c.Violation(fmt.Sprintf("c45:%s:then-complete-save-of-%s-configuration", p.Name, third),
+				fmt.Sprintf("save %s interrupted %s, client restarted (configuration recovered), then a complete save of a %s configuration (operations: %s): %s; %d of %d such histories are bad",
+					p.Name, firstSec.After, third, firstSec.Ops, firstSec.Verdict, nbad, total),
+				map[string]any{"pair": p.Name})
+		}
+	}
 	if first == nil {
-		return 0
+		return bad
 	}
 	where := fmt.Sprintf("after-op%d-%s", first.OpIndex, first.Kind)
 	if first.Partial >= 0 {
@@ -422,6 +574,7 @@ func c45(c *report.Check) {
 	pairs := c45Pairs(c.Thorough())
 	dist := report.NewDistinct(10)
 	evals, bad, boundaries, partials := 0, 0, 0, 0
+	secondSaves, secondImages := 0, 0
 	var opSeqs []map[string]any
 	for _, p := range pairs {
 		run := c45RunPair(p, c.Thorough())
@@ -430,6 +583,16 @@ func c45(c *report.Check) {
 			continue
 		}
 		evals += len(run.Images)
+		for _, sec := range run.Second {
+			evals += sec.Images
+			secondSaves++
+			secondImages += sec.Images
+			v := "ok"
+			if sec.Verdict != "" {
+				v = "bad"
+			}
+			dist.See(p.Name+"|then-"+sec.Third+"|"+v, nil)
+		}
 		for _, im := range run.Images {
 			if im.Partial >= 0 {
 				partials++
@@ -461,13 +624,15 @@ func c45(c *report.Check) {
 	c.Set("crash_images_at_operation_boundaries", boundaries)
 	c.Set("crash_images_inside_a_write", partials)
 	c.Set("bad_images", bad)
+	c.Set("second_saves_on_recovered_images", secondSaves)
+	c.Set("second_save_crash_images", secondImages)
 	c.Set("config_pairs", len(pairs))
 	c.Set("distinct_nontrivial", dist.N())
 	split := "at 1, 1/4, 1/2, 3/4 and n-1 bytes"
 	if c.Thorough() {
 		split = "at every byte"
 	}
-	c.Set("rule", "for each (previous, new) configuration pair the real writer runs once with os replaced by engine/vos; before every mutating file operation (create/truncate, write, sync, close, rename, remove, ...) the directory is copied = crash after the previous operation (process-crash semantics: completed operations survive); every write is additionally cut "+split+"; plus the image after the save completed; each image is read with the real client.NewConfig and must equal the previous or the new configuration (version, apex, certificate, key, all tunnel fields); class = (pair, operation kind, boundary/inside, verdict)")
+	c.Set("rule", "for each (previous, new) configuration pair the real writer runs once with os replaced by engine/vos; before every mutating file operation (create/truncate, write, sync, close, rename, remove, ...) the directory is copied = crash after the previous operation (process-crash semantics: completed operations survive); every write is additionally cut "+split+"; plus the image after the save completed; each image is read with the real client.NewConfig and must equal the previous or the new configuration (version, apex, certificate, key, all tunnel fields); then, on top of EVERY such crash image (a restarted client that recovered previous-or-new), a complete save of a third configuration - once a shorter, once a longer one - is run with its own crash images at every operation boundary (thorough: also writes cut at 5 offsets): each must read as the recovered or the third configuration and the completed save as exactly the third; class = (pair, operation kind, boundary/inside, verdict) and (pair, third, ok/bad)")
 	c.Set("operation_sequences", opSeqs)
 	c.Set("samples", dist.Samples)
 	c.Set("exhaustive", true)
